@@ -15,7 +15,6 @@ namespace MongoModel
     (c.storeDoc k d).ttlIndexes = (c.setDoc k d).ttlIndexes := rfl
 @[simp] theorem storeDoc_nextOid (c : Coll) (k d : Val) :
     (c.storeDoc k d).nextOid = (c.setDoc k d).nextOid := rfl
-@[simp] theorem storeDoc_od (c : Coll) (k d : Val) : (c.storeDoc k d).od = (c.setDoc k d).od := rfl
 @[simp] theorem storeDoc_forceCreated (c : Coll) (k d : Val) :
     (c.storeDoc k d).forceCreated = true := rfl
 
@@ -28,8 +27,6 @@ namespace MongoModel
     (c.markStored b).ttlIndexes = c.ttlIndexes := by
   cases b <;> rfl
 @[simp] theorem markStored_nextOid (c : Coll) (b : Bool) : (c.markStored b).nextOid = c.nextOid := by
-  cases b <;> rfl
-@[simp] theorem markStored_od (c : Coll) (b : Bool) : (c.markStored b).od = c.od := by
   cases b <;> rfl
 @[simp] theorem markStored_false (c : Coll) : c.markStored false = c := rfl
 @[simp] theorem markStored_true (c : Coll) : c.markStored true = { c with forceCreated := true } := rfl
